@@ -2655,7 +2655,9 @@ class Head(Expr):
             operands = [
                 (
                     Head(op, self.n, self.operand("npartitions"))
-                    if isinstance(op, Expr) and not isinstance(op, _DelayedExpr)
+                    if isinstance(op, Expr)
+                    and not isinstance(op, _DelayedExpr)
+                    and op.ndim > 0
                     else op
                 )
                 for op in self.frame.operands
@@ -2767,7 +2769,13 @@ class Tail(Expr):
     def _simplify_down(self):
         if isinstance(self.frame, Elemwise):
             operands = [
-                Tail(op, self.n) if isinstance(op, Expr) else op
+                (
+                    Tail(op, self.n)
+                    if isinstance(op, Expr)
+                    and not isinstance(op, _DelayedExpr)
+                    and op.ndim > 0
+                    else op
+                )
                 for op in self.frame.operands
             ]
             return type(self.frame)(*operands)
